@@ -70,8 +70,73 @@ def run(ck):
     def show(b):
         return b.decode("latin-1") if isinstance(b, bytes) else b
 
+    class Raised(object):
+        """Stands in for the result of a cap operation that raised; never equal to any expected value."""
+        def __init__(self, exc):
+            self.exc = exc
+
+        def __repr__(self):
+            return "<raised %s: %s>" % (type(self.exc).__name__, str(self.exc)[:100])
+
     def S(x):
-        return None if x is None else x.to_string()
+        """x.to_string(), or a Raised marker: an exception while serialising a derived cap is judged, not a crash."""
+        if x is None:
+            return None
+        try:
+            return x.to_string()
+        except Exception as e:   # noqa
+            ck.hit("derived-cap-operation-raised")
+            return Raised(e)
+
+    def texts_of(*objs):
+        """serialisations / reprs usable for the secret search (those that raise are judged elsewhere)."""
+        out = []
+        for o in objs:
+            if o is None:
+                continue
+            t = S(o)
+            if isinstance(t, bytes):
+                out.append(t)
+            try:
+                out.append(repr(o).encode("utf-8", "replace"))
+            except Exception:   # noqa
+                ck.hit("derived-cap-operation-raised")
+        return out
+
+    def chain_key(got):
+        return "derived-cap-unusable" if isinstance(got, Raised) else "derivation-chain-mismatch"
+
+    def usable(obj, twin, label, wit):
+        """A derived cap must serialise, parse back to an equal cap of its class, and compare/hash equal to the
+        same cap derived along the other path (`twin`); an exception in any of these is a violation."""
+        ck.mon("derived-cap-usable")
+        try:
+            t = obj.to_string()
+            back = uri.from_string(t)
+            ok = type(back) is type(obj) and back == obj and not (back != obj) and hash(back) == hash(obj)
+            what = "does not parse back to an equal %s (got %s %r)" % (type(obj).__name__, type(back).__name__,
+                                                                        show(back.to_string()))
+            if ok and twin is not None:
+                ok = (obj == twin) and not (obj != twin) and hash(obj) == hash(twin) and len({obj, twin}) == 1
+                what = "differs (==/hash) from the same cap derived along the other path (%r)" % (show(S(twin)),)
+        except Exception as e:   # noqa
+            ck.hit("derived-cap-operation-raised")
+            ck.violation("derived-cap-unusable", "%s (%s): to_string()/from_string()/==/hash raised %s: %s"
+                         % (label, type(obj).__name__, type(e).__name__, str(e)[:120]), wit)
+            return
+        if not ok:
+            ck.violation("derived-cap-unusable", "%s %s" % (label, what), wit)
+
+    def guarded(label, wit, fn, *a):
+        """Run one block of derivations on the real code; an exception there is a verdict, never a harness crash."""
+        try:
+            return fn(*a)
+        except Exception as e:   # noqa
+            import traceback
+            ck.hit("derived-cap-operation-raised")
+            ck.violation("derivation-raises", "%s: %s: %s" % (label, type(e).__name__, str(e)[:160]),
+                         dict(wit, traceback=traceback.format_exc()[-600:]))
+            return None
 
     def write_uri_of(n):
         f = getattr(n, "get_write_uri", None)
@@ -106,11 +171,12 @@ def run(ck):
         si = M.ssk_si(rk)
         w_s, r_s, v_s = M.fmt(wkind, (wk, fp)), M.fmt(rkind, (rk, fp)), M.fmt(vkind, (si, fp))
         wit = {"family": fam[0], "writecap": show(w_s), "model_readcap": show(r_s), "model_verifycap": show(v_s)}
-        for route, w in (("constructor", M.build(uri, wkind, (wk, fp))), ("parser", uri.from_string(w_s))):
+        def caps_part(route):
+            w = M.build(uri, wkind, (wk, fp)) if route == "constructor" else uri.from_string(w_s)
             ck.mon("derivation-chain")
-            if type(w).__name__ != wkind.cls or w.to_string() != w_s:
+            if type(w).__name__ != wkind.cls or S(w) != w_s:
                 ck.violation("derived-cap-wrong-kind", "%s of %r is %s %r" % (route, w_s, type(w).__name__, S(w)), wit)
-                continue
+                return
             r, v = w.get_readonly(), w.get_verify_cap()
             v2, r2 = r.get_verify_cap(), r.get_readonly()
             got = {"get_readonly": S(r), "get_verify_cap": S(v), "ro.get_verify_cap": S(v2), "ro.get_readonly": S(r2)}
@@ -118,9 +184,13 @@ def run(ck):
             verifier_fixpoint(v, v_s)
             for k_ in want:
                 if got[k_] != want[k_]:
-                    ck.violation("derivation-chain-mismatch",
+                    ck.violation(chain_key(got[k_]),
                                  "%s.%s() = %r; hash chain says %r" % (wkind.cls, k_, show(got[k_]), show(want[k_])),
                                  dict(wit, got={a: show(b) for a, b in got.items()}))
+            # write->read->verify must be the very verify cap that write->verify gives, and every derived cap usable
+            usable(v2, v, "%s.get_readonly().get_verify_cap()" % wkind.cls, wit)
+            usable(v, v2, "%s.get_verify_cap()" % wkind.cls, wit)
+            usable(r, r2, "%s.get_readonly()" % wkind.cls, wit)
             for obj, kind_ in ((r, rkind), (r2, rkind), (v, vkind), (v2, vkind)):
                 if type(obj).__name__ != kind_.cls:
                     ck.violation("derived-cap-wrong-kind", "derived cap of %s is a %s, expected %s"
@@ -142,14 +212,12 @@ def run(ck):
             for obj, nm_, secrets in ((r, "readcap", [("writekey", wk)]), (r2, "readcap", [("writekey", wk)]),
                                       (v, "verifycap", [("writekey", wk), ("readkey", rk)]),
                                       (v2, "verifycap", [("writekey", wk), ("readkey", rk)])):
-                texts = [obj.to_string(), repr(obj).encode("utf-8", "replace")]
                 inner = obj.get_filenode_cap() if hasattr(obj, "get_filenode_cap") else None
-                if inner is not None:
-                    texts.append(inner.to_string())
+                texts = texts_of(obj, inner)
                 for sname, sec in secrets:
-                    if any(leaks(sec, t) for t in texts) or any(M.b32enc(sec[:5]) in t for t in texts[1:2]):
+                    if any(leaks(sec, t) or M.b32enc(sec[:5]) in t for t in texts):
                         ck.violation("derived-cap-leaks-secret", "%s derived from %s carries the %s"
-                                     % (nm_, wkind.cls, sname), dict(wit, derived=show(obj.to_string())))
+                                     % (nm_, wkind.cls, sname), dict(wit, derived=show(S(obj))))
                     for o2 in (obj, inner):
                         if o2 is None:
                             continue
@@ -157,23 +225,26 @@ def run(ck):
                             if getattr(o2, attr, None) == sec:
                                 ck.violation("derived-cap-leaks-secret", "%s derived from %s has public attribute .%s = the %s"
                                              % (nm_, wkind.cls, attr, sname), wit)
+        for route in ("constructor", "parser"):
+            guarded("%s cap chain (%s)" % (fam[0], route), wit, caps_part, route)
             ck.case("chain-" + fam[0], key=("A", route, w_s), sample={"write": show(w_s), "read": show(r_s), "verify": show(v_s)})
+
         # nodes
-        for nm in (shared, mk()):
+        def node_part(nm):
             ck.mon("node-chain")
             n = nm.create_from_cap(w_s)
             keep.append(n)
             exp = "DirectoryNode" if wkind.is_dir else "MutableFileNode"
             if type(n).__name__ != exp:
                 ck.violation("derived-cap-wrong-kind", "node for %r is %s" % (w_s, type(n).__name__), wit)
-                continue
+                return
             obs = {"uri": n.get_uri(), "write_uri": n.get_write_uri(), "readonly_uri": n.get_readonly_uri(),
                    "verify": S(n.get_verify_cap()), "readcap": S(n.get_readcap()), "cap": S(n.get_cap()),
                    "si": n.get_storage_index()}
             wantn = {"uri": w_s, "write_uri": w_s, "readonly_uri": r_s, "verify": v_s, "readcap": r_s, "cap": w_s, "si": si}
             for k_ in wantn:
                 if obs[k_] != wantn[k_]:
-                    ck.violation("derivation-chain-mismatch", "write node .%s = %r; hash chain says %r"
+                    ck.violation(chain_key(obs[k_]), "write node .%s = %r; hash chain says %r"
                                  % (k_, show(obs[k_]), show(wantn[k_])), wit)
             nr = nm.create_from_cap(r_s)
             keep.append(nr)
@@ -194,15 +265,22 @@ def run(ck):
                 wantr = {"uri": r_s, "readonly_uri": r_s, "verify": v_s, "cap": r_s, "si": si}
                 for k_ in wantr:
                     if obs[k_] != wantr[k_]:
-                        ck.violation("derivation-chain-mismatch", "%s .%s = %r; hash chain says %r"
+                        ck.violation(chain_key(obs[k_]), "%s .%s = %r; hash chain says %r"
                                      % (label, k_, show(obs[k_]), show(wantr[k_])), wit)
-                texts = [x.get_uri(), x.get_readonly_uri(), repr(x).encode("utf-8", "replace"), S(x.get_verify_cap())]
+                usable(x.get_verify_cap(), n.get_verify_cap(), "%s .get_verify_cap()" % label, wit)
+                texts = [x.get_uri(), x.get_readonly_uri()] + texts_of(x.get_verify_cap())
+                try:
+                    texts.append(repr(x).encode("utf-8", "replace"))
+                except Exception:   # noqa
+                    ck.hit("derived-cap-operation-raised")
                 ck.mon("secret-search")
-                if any(leaks(wk, t) for t in texts if t):
+                if any(leaks(wk, t) for t in texts if isinstance(t, bytes)):
                     ck.violation("derived-cap-leaks-secret", "%s carries the writekey" % label, wit)
                 gw = getattr(x, "get_writekey", None)
                 if gw is not None and gw() is not None:
                     ck.violation("derived-cap-leaks-secret", "%s.get_writekey() is not None" % label, wit)
+        for nm in (shared, mk()):
+            guarded("%s node chain" % fam[0], wit, node_part, nm)
             ck.case("node-chain-" + fam[0], key=("An", w_s, nm is shared))
         return w_s, r_s, v_s
 
@@ -211,16 +289,20 @@ def run(ck):
         si = M.chk_si(key)
         c_s, v_s = M.fmt(ckind, (key, ueb, k, n_, size)), M.fmt(vkind, (si, ueb, k, n_, size))
         wit = {"family": fam[0], "readcap": show(c_s), "model_verifycap": show(v_s)}
-        for route, c in (("constructor", M.build(uri, ckind, (key, ueb, k, n_, size))), ("parser", uri.from_string(c_s))):
+        def caps_part(route):
+            c = M.build(uri, ckind, (key, ueb, k, n_, size)) if route == "constructor" else uri.from_string(c_s)
             ck.mon("derivation-chain")
-            if type(c).__name__ != ckind.cls or c.to_string() != c_s:
+            if type(c).__name__ != ckind.cls or S(c) != c_s:
                 ck.violation("derived-cap-wrong-kind", "%s of %r is %s" % (route, c_s, type(c).__name__), wit)
-                continue
+                return
             v, r = c.get_verify_cap(), c.get_readonly()
             verifier_fixpoint(v, v_s)
             if S(r) != c_s or S(v) != v_s:
-                ck.violation("derivation-chain-mismatch", "%s: get_readonly()=%r get_verify_cap()=%r; hash chain says %r"
+                ck.violation(chain_key(S(v)) if S(r) == c_s else chain_key(S(r)),
+                             "%s: get_readonly()=%r get_verify_cap()=%r; hash chain says %r"
                              % (ckind.cls, show(S(r)), show(S(v)), show(v_s)), wit)
+            usable(v, r.get_verify_cap(), "%s.get_verify_cap()" % ckind.cls, wit)
+            usable(r, c, "%s.get_readonly()" % ckind.cls, wit)
             if type(v).__name__ != vkind.cls:
                 ck.violation("derived-cap-wrong-kind", "verify cap of %s is %s" % (ckind.cls, type(v).__name__), wit)
             if c.get_storage_index() != si or v.get_storage_index() != si:
@@ -231,33 +313,38 @@ def run(ck):
                     ck.violation("derived-cap-claims-write-authority", "%s reports readonly=%r mutable=%r"
                                  % (type(obj).__name__, obj.is_readonly(), obj.is_mutable()), wit)
             ck.mon("secret-search")
-            texts = [v.to_string(), repr(v).encode("utf-8", "replace")]
             inner = v.get_filenode_cap() if hasattr(v, "get_filenode_cap") else None
-            if inner is not None:
-                texts.append(inner.to_string())
+            texts = texts_of(v, inner)
             if any(leaks(key, t) for t in texts) or any(getattr(o, "key", None) == key for o in (v, inner) if o is not None):
                 ck.violation("derived-cap-leaks-secret", "verify cap of %s carries the read key" % ckind.cls,
-                             dict(wit, derived=show(v.to_string())))
+                             dict(wit, derived=show(S(v))))
+        for route in ("constructor", "parser"):
+            guarded("%s cap chain (%s)" % (fam[0], route), wit, caps_part, route)
             ck.case("chain-" + fam[0], key=("A", route, c_s))
-        for nm in (shared, mk()):
+
+        def node_part(nm):
             ck.mon("node-chain")
             n = nm.create_from_cap(c_s)
             exp = "DirectoryNode" if ckind.is_dir else "ImmutableFileNode"
             if type(n).__name__ != exp:
                 ck.violation("derived-cap-wrong-kind", "node for %r is %s" % (c_s, type(n).__name__), wit)
-                continue
+                return
             if (not n.is_readonly()) or n.is_mutable() or n.get_write_uri() is not None:
                 ck.violation("derived-node-claims-write-authority", "immutable node claims authority", wit)
             if (n.get_uri() != c_s or n.get_readonly_uri() != c_s or S(n.get_verify_cap()) != v_s
                     or n.get_storage_index() != si or S(n.get_readcap()) != c_s):
-                ck.violation("derivation-chain-mismatch", "immutable node: uri=%r ro=%r verify=%r; hash chain says %r / %r"
+                ck.violation(chain_key(S(n.get_verify_cap())),
+                             "immutable node: uri=%r ro=%r verify=%r; hash chain says %r / %r"
                              % (show(n.get_uri()), show(n.get_readonly_uri()), show(S(n.get_verify_cap())), show(c_s), show(v_s)), wit)
+            usable(n.get_verify_cap(), n.get_readcap().get_verify_cap(), "immutable node .get_verify_cap()", wit)
             nv = nm.create_from_cap(v_s)
             if write_uri_of(nv) is not None or flag(nv, "is_mutable", False):
                 ck.violation("derived-node-claims-write-authority", "node from verify cap claims authority", wit)
             gv = getattr(nv, "get_verify_cap", None)
             if gv is not None and gv() is not None and S(gv()) != v_s:
-                ck.violation("derivation-chain-mismatch", "verifier node verify cap %r" % (show(S(gv())),), wit)
+                ck.violation(chain_key(S(gv())), "verifier node verify cap %r" % (show(S(gv())),), wit)
+        for nm in (shared, mk()):
+            guarded("%s node chain" % fam[0], wit, node_part, nm)
             ck.case("node-chain-" + fam[0], key=("An", c_s, nm is shared))
         return c_s, v_s
 
@@ -284,7 +371,7 @@ def run(ck):
             c = M.build(uri, kind, (data,))
             s = M.fmt(kind, (data,))
             ck.mon("derivation-chain")
-            if c.to_string() != s or S(c.get_readonly()) != s or c.get_verify_cap() is not None \
+            if S(c) != s or S(c.get_readonly()) != s or c.get_verify_cap() is not None \
                     or not c.is_readonly() or c.is_mutable():
                 ck.violation("derivation-chain-mismatch", "LIT cap %r: readonly=%r verify=%r" %
                              (show(s), show(S(c.get_readonly())), c.get_verify_cap()), {"cap": show(s)})
@@ -418,10 +505,13 @@ def run(ck):
                     restricted_ro = prefix.startswith(b"ro.")
                     wit = {"kind": kind.name, "prefix": show(prefix), "deep_immutable": deep, "cap": show(P)}
                     for inp in (P, P.decode("ascii")):
-                        cap = uri.from_string(inp, deep_immutable=deep)
+                        cap = guarded("uri.from_string(%r, deep_immutable=%r)" % (show(P), deep), wit,
+                                      lambda: uri.from_string(inp, deep_immutable=deep))
+                        if cap is None:
+                            continue
                         judge_cap(cap, restricted_ro, restricted_imm, wit)
                         judge_cell(kind, s, prefix, deep, cap, wit)
-                    if len(prefix) > 4 and type(cap).__name__ != "UnknownURI":
+                    if cap is not None and len(prefix) > 4 and type(cap).__name__ != "UnknownURI":
                         ck.violation("doubled-prefix-parsed-as-known", "from_string(%r) -> %s" % (show(P), type(cap).__name__), wit)
                     ck.case("table-cap", key=("Bc", P, deep))
                     P2 = prefix + ro_version(kind, s)
@@ -521,27 +611,27 @@ def run(ck):
                     if not ck.mine(idx) and rep >= 1:
                         continue
                     wit = {"rw_slot": show(rw), "ro_slot": show(ro), "deep_immutable": deep}
-                    n = UnknownNode(rw, ro, deep_immutable=deep, name="child")
-                    judge_unknown(n, rw, ro, deep, dict(wit, via="UnknownNode"))
+                    n = guarded("UnknownNode(%r, %r, deep_immutable=%r)" % (show(rw), show(ro), deep), wit,
+                                lambda: UnknownNode(rw, ro, deep_immutable=deep, name="child"))
+                    if n is None:
+                        continue
+                    guarded("UnknownNode accessors", wit, judge_unknown, n, rw, ro, deep, dict(wit, via="UnknownNode"))
                     ck.case("unknown-node", key=("C", rw, ro, deep), sample={"rw": show(rw), "ro": show(ro), "deep": deep,
                                                                            "write_uri": show(n.get_write_uri()),
                                                                            "readonly_uri": show(n.get_readonly_uri())})
-                    n = shared.create_from_cap(rw, ro, deep_immutable=deep, name="child")
+                    n = guarded("create_from_cap(%r, %r, deep_immutable=%r)" % (show(rw), show(ro), deep), wit,
+                                lambda: shared.create_from_cap(rw, ro, deep_immutable=deep, name="child"))
+                    if n is None:
+                        continue
                     if flag(n, "is_unknown", False):
-                        judge_unknown(n, rw, ro, deep, dict(wit, via="NodeMaker"))
+                        guarded("UnknownNode accessors", wit, judge_unknown, n, rw, ro, deep, dict(wit, via="NodeMaker"))
                     else:
                         ck.violation("derived-cap-wrong-kind", "NodeMaker made a %s from unknown caps" % type(n).__name__, wit)
                     ck.case("unknown-node-nodemaker", key=("Cn", rw, ro, deep))
 
     # ------------------------------------------------------------------ (D) directories: pack / unpack
-    nD = 8 if ck.tier == "quick" else 60
-    for rep in range(nD):
-        idx += 1
-        if not ck.mine(idx) and rep >= 1:
-            continue
-        if ck.out_of_time():
-            break
-        for dfam in (MUTABLE_FAMILIES[2], MUTABLE_FAMILIES[3]):
+    def dir_part(rep, dfam):
+        if True:
             dwk, dfp = rsecret(rng, 16), rsecret(rng, 32)
             dw_s = M.fmt(M.BY_NAME[dfam[0]], (dwk, dfp))
             dr_s = M.fmt(M.BY_NAME[dfam[1]], (M.ssk_readkey(dwk), dfp))
@@ -612,8 +702,18 @@ def run(ck):
                                  % (nme, type(child).__name__), wit)
                 ck.case("dir-child", key=("D", "imm", nme, rep, dfam[0]))
 
+    nD = 8 if ck.tier == "quick" else 60
+    for rep in range(nD):
+        idx += 1
+        if not ck.mine(idx) and rep >= 1:
+            continue
+        if ck.out_of_time():
+            break
+        for dfam in (MUTABLE_FAMILIES[2], MUTABLE_FAMILIES[3]):
+            guarded("directory pack/unpack (%s)" % dfam[0], {"family": dfam[0]}, dir_part, rep, dfam)
+
     ck.exhaustive = False
-    ck.require_monitor("derivation-chain", "node-chain", "secret-search", "authority-flags", "truth-table-cap",
+    ck.require_monitor("derivation-chain", "node-chain", "derived-cap-usable", "secret-search", "authority-flags", "truth-table-cap",
                        "truth-table-node", "truth-table-consistent-cell", "unknown-node-oracle", "strip-prefix-reread",
                        "dir-reread")
     ck.require_reach("consistent-cell", "consistent-cell-node")
@@ -642,5 +742,9 @@ def run(ck):
 #  16. NodeMaker memokey ignores deep_immutable                     -> alleged-immutable-parsed-as-mutable
 #  17. seeded C15-1: 'URI:DIR2-MDMF-RO:' branch guarded by can_be_writeable (ro.+readcap -> UnknownURI/UnknownNode)
 #                                                                    -> consistent-prefix-rejected
+#  18. seeded C16-4: ReadonlyMDMFDirectoryURI.get_verify_cap() override removed (read->verify gives an SDMF
+#      DirectoryURIVerifier around an MDMFVerifierURI whose to_string()/==/hash raise AssertionError)
+#                                                                    -> derived-cap-unusable, derived-cap-wrong-kind
+#      (an exception inside any derivation block is the verdict "derivation-raises", never a harness crash)
 #  inert (equivalent mutant, exit 0): "deep-immutable branch assigns rw_uri = given_rw_uri" alone -- given_rw_uri is
 #  always None there because the earlier branches already returned or moved it.
